@@ -192,6 +192,24 @@ def designed():
         out.append([ident, ("defi", "m", ["o2"], [("op", pw, ("var", "o2")), ("op", pw, ("lbl", "o2"))]), pc, ("macro", "m", [("num", 7)])] + tail)
         out.append([ident, ("defi", "inner", ["top"], [("op", pw, ("var", "top"))]), ("defi", "m", ["top"], [L, J, ("macro", "inner", [("lbl", "top")]), ("macro", "inner", [("var", "top")])]),
                     pc, ("macro", "m", [("num", 9)])] + tail)
+    # parameters inside the arguments of an expression-macro invocation: every argument is rewritten
+    w = ("defe", "w", ["h", "l", "k"], G.climb([("var", "h"), "*", ("num", 16), "+", ("var", "l"), "+", ("var", "k")]))
+    for args in ([("var", "a"), ("var", "b"), ("num", 0)], [("var", "a"), ("var", "a"), ("var", "b")], [("num", 1), ("var", "a"), ("var", "b")],
+                 [G.climb([("var", "a"), "+", ("num", 1)]), ("macro", "id", [("var", "b")]), ("lbl", "top")], [("var", "b"), ("num", 2), ("var", "a")]):
+        for opk in ("op", "push"):
+            operand = ("macro", "w", args)
+            body_op = ("op", "push2", operand) if opk == "op" else ("push", operand)
+            out.append([ident, w, ("defi", "both", ["a", "b"], [L, J, body_op]), ("macro", "both", [("num", 3), ("num", 4)]), ("macro", "both", [("lbl", "o2"), ("num", 1)])] + tail)
+    # user labels spelled like the names a macro-local label could be given (macro_label_suffix with small or
+    # predictable suffixes): they are ordinary labels, never captured by / clashing with an expansion
+    body = [L, J, ("op", "push1", ("lbl", "top"))]
+    for suffix in ("0", "1", "2", "00", "18446744073709551615"):
+        nm = f"m_top_{suffix}"
+        out.append([("defi", "m", [], body), ("label", nm), J, ("macro", "m", []), ("op", "push1", ("lbl", nm))] + tail)
+        out.append([("defi", "m", [], body), ("macro", "m", []), ("macro", "m", []), ("label", nm), J, ("op", "push1", ("lbl", nm))] + tail)
+        out.append([("defi", "m", [], body), ("macro", "m", []), ("op", "push1", ("lbl", nm))] + tail)          # undeclared: must stay an error
+        out.append([("defi", "inner", [], body), ("defi", "m", [], [("macro", "inner", []), L, J]), ("macro", "m", []), ("label", f"inner_top_{suffix}"), J,
+                    ("op", "push1", ("lbl", f"inner_top_{suffix}"))] + tail)
     return out
 
 
